@@ -16,6 +16,7 @@ MODEL_FAMILIES = ["string", "key", "list", "hash", "zset", "set", "stream"]
 
 def make_cases(tier, seed):
     cases = gen_ttl.gen_timer(seed, MODEL_TYPES)
+    cases += gen_ttl.gen_crossdb(seed, tier, MODEL_TYPES)
     cases += gen_ttl.gen_matrix(seed, tier, MODEL_TYPES, MODEL_FAMILIES)
     cases += gen_ttl.gen_random(seed, 2000 if tier == "quick" else 60000, MODEL_TYPES)
     return cases
@@ -44,7 +45,10 @@ def run(ctx):
              "string/key/list/hash/zset/set/stream reads and writes incl. SUNION/SINTER/SDIFF(STORE), SMOVE, SPOP, XADD, XRANGE, MGET, DEL, EXISTS, RENAME, LMOVE, BLPOP, KEYS, HRANDFIELD, ZADD options; quick: own-family + key-command probes + 10 sampled foreign probes, one seeded clock phase; thorough: all probes, six phases), "
              "dump after attach, after the probe and after TTL/TYPE/EXISTS; (b) timer scenarios (re-created/extended/persisted/"
              "renamed keys vs the old timer, 3 s after the deadline); (c) seeded random TTL-heavy programs with sleeps around "
-             "second boundaries; thorough: (d) real-clock TCP sample, TTL 1-2 s, either second accepted for a step that straddles a boundary",
+             "second boundaries; (c2) cross-database slice: the same key name in databases 0, 1, 2 (one connection per database) with different "
+             "value types and different / no deadlines, a way of attaching/removing a deadline in one database, TTL/read/TYPE/EXISTS of the key in "
+             "all three around a candidate deadline and 3 s later, dumps of all databases (quick: 6 type pairs x 18 ways x 2 offsets; thorough: "
+             "all type pairs x all ways x {no, 2, 5} victim deadline x 5 offsets); thorough: (d) real-clock TCP sample, TTL 1-2 s, either second accepted for a step that straddles a boundary",
         extra_tb=["virtual clock: Go runtime faketime (timers and sleeps exact); real goroutine latency of the expiry timer is only "
                   "exercised by the real-clock TCP sample (thorough)"],
         extra_cov=dict(value_types=MODEL_TYPES, attach_ways=nways, probes=len([p for p in gen_ttl.PROBES.values() if p[0] in MODEL_FAMILIES])),
